@@ -49,6 +49,50 @@ var (
 	}
 )
 
+// isValidNumberToken reports whether b is a number of the JSON grammar (RFC 8259 section 6).
+// The scanners only collect the bytes of the number alphabet and strconv.ParseFloat
+// accepts more than JSON does ("01", "1.", ".5e1", "-.5").
+func isValidNumberToken(b []byte) bool {
+	i := 0
+	if i < len(b) && b[i] == '-' {
+		i++
+	}
+	switch {
+	case i < len(b) && b[i] == '0':
+		i++
+	case i < len(b) && '1' <= b[i] && b[i] <= '9':
+		for i < len(b) && '0' <= b[i] && b[i] <= '9' {
+			i++
+		}
+	default:
+		return false
+	}
+	if i < len(b) && b[i] == '.' {
+		i++
+		if i == len(b) || b[i] < '0' || '9' < b[i] {
+			return false
+		}
+		for i < len(b) && '0' <= b[i] && b[i] <= '9' {
+			i++
+		}
+	}
+	if i < len(b) && (b[i] == 'e' || b[i] == 'E') {
+		i++
+		if i < len(b) && (b[i] == '+' || b[i] == '-') {
+			i++
+		}
+		if i == len(b) || b[i] < '0' || '9' < b[i] {
+			return false
+		}
+		for i < len(b) && '0' <= b[i] && b[i] <= '9' {
+			i++
+		}
+	}
+	return i == len(b)
+}
+
+const invalidNumberLiteral = "invalid number literal"
+
 func floatBytes(s *Stream) []byte {
 	start := s.cursor
 	for {
@@ -131,6 +175,9 @@ func (d *floatDecoder) DecodeStream(s *Stream, depth int64, p unsafe.Pointer) er
 	if err != nil {
 		return errors.ErrSyntax(err.Error(), s.totalOffset())
 	}
+	if !isValidNumberToken(bytes) {
+		return errors.ErrSyntax(invalidNumberLiteral, s.totalOffset())
+	}
 	d.op(p, f64)
 	return nil
 }
@@ -152,6 +199,9 @@ func (d *floatDecoder) Decode(ctx *RuntimeContext, cursor, depth int64, p unsafe
 	f64, err := strconv.ParseFloat(s, 64)
 	if err != nil {
 		return 0, errors.ErrSyntax(err.Error(), cursor)
+	}
+	if !isValidNumberToken(bytes) {
+		return 0, errors.ErrSyntax(invalidNumberLiteral, cursor)
 	}
 	d.op(p, f64)
 	return cursor, nil
